@@ -273,8 +273,7 @@ func Harness_C17_CutoverNeedsMatchingProof() {
 		return
 	}
 	if postTask == task && c17SameMeta(postMeta, normalizeChannelRuntimeMeta(meta)) {
-		zzsym.Reach("cutover-noop")
-		return
+		return // accepted without effect (idempotent replay)
 	}
 	zzsym.Reach("cutover-committed")
 	zzsym.Assert(task.DrainedFenceVersion == meta.WriteFenceVersion && task.DrainedChannelEpoch == meta.ChannelEpoch &&
@@ -343,7 +342,11 @@ func Harness_C17_NoAbortAfterCutoverHistory() {
 // Harness_C17_ForeignFenceUntouched: no command of task t1 overwrites or clears a fence whose
 // token belongs to another task.
 func Harness_C17_ForeignFenceUntouched() {
-	task, meta := c17TaskRow(), c17Meta(2)
+	tf := 1
+	if zzsym.Thorough() {
+		tf = -1
+	}
+	task, meta := c17TaskRowF(tf), c17Meta(2)
 	e := c17Seed(task, meta)
 	cmd := zzsym.Choice("cmd", c17NumCmds)
 	err := c17Apply(e, cmd, c17GuardOf(task), c17SymRuntimeGuard())
